@@ -9,6 +9,8 @@ the two correspondence streams. Guard: the engine has no duplicate-labelset chec
 finding KF-no-duplicate-check), so agreement is with the reference *without* that check.
 -/
 import PromqlVerif.Proofs.Agg
+import PromqlVerif.Proofs.OptSound
+import PromqlVerif.Properties.C09
 namespace PromqlVerif.C01
 open PromqlVerif Val
 
@@ -53,6 +55,66 @@ example : Frag false
     (.clampMin _ _ (.neg _ _ (.rangefn "rate" _ _ (by decide)))
       (.binSS "*" false _ _ _ (by decide) (.scalar _ (.vsel _)) (.num _)))
     .time
+
+/-- the fragment is closed under selector rewrites -/
+theorem frag_mapSelectors (f : VSel → VSel) (b : Bool) (e : Expr V) (h : Frag b e) : Frag b (mapSelectors f e) := by
+  induction h with
+  | num v => rw [mapSelectors] <;> first | exact .num v | (intros; rename_i hh; cases hh)
+  | time => rw [mapSelectors, mapSelectors.mapArgs]; exact .time
+  | pi => rw [mapSelectors, mapSelectors.mapArgs]; exact .pi
+  | vsel s => rw [mapSelectors]; exact .vsel _
+  | rangefn fn s r hfn =>
+    rw [mapSelectors, mapSelectors.mapArgs, mapSelectors.mapArgs, mapSelectors]
+    exact .rangefn fn _ r hfn
+  | neg b a _ ih => rw [mapSelectors]; exact .neg b _ ih
+  | pos b a _ ih => rw [mapSelectors]; exact .pos b _ ih
+  | paren b a _ ih => rw [mapSelectors]; exact .paren b _ ih
+  | simple fn a hfn _ ih =>
+    rw [mapSelectors, mapSelectors.mapArgs, mapSelectors.mapArgs]
+    exact .simple fn _ hfn ih
+  | scalar a _ ih =>
+    rw [mapSelectors, mapSelectors.mapArgs, mapSelectors.mapArgs]
+    exact .scalar _ ih
+  | vector a _ ih =>
+    rw [mapSelectors, mapSelectors.mapArgs, mapSelectors.mapArgs]
+    exact .vector _ ih
+  | clampMin a lo _ _ iha ihlo =>
+    rw [mapSelectors, mapSelectors.mapArgs, mapSelectors.mapArgs, mapSelectors.mapArgs]
+    exact .clampMin _ _ iha ihlo
+  | clampMax a hi _ _ iha ihhi =>
+    rw [mapSelectors, mapSelectors.mapArgs, mapSelectors.mapArgs, mapSelectors.mapArgs]
+    exact .clampMax _ _ iha ihhi
+  | clamp a lo hi _ _ _ iha ihlo ihhi =>
+    rw [mapSelectors, mapSelectors.mapArgs, mapSelectors.mapArgs, mapSelectors.mapArgs, mapSelectors.mapArgs]
+    exact .clamp _ _ _ iha ihlo ihhi
+  | stepInvNum v =>
+    rw [mapSelectors]
+    · exact .stepInvNum v
+    · intro s hh; cases hh
+  | binVS op bl m a sc hop _ _ iha ihs => rw [mapSelectors]; exact .binVS op bl m _ _ hop iha ihs
+  | binSV op bl m sc a hop _ _ ihs iha => rw [mapSelectors]; exact .binSV op bl m _ _ hop ihs iha
+  | binSS op bl m x y hop _ _ ihx ihy => rw [mapSelectors]; exact .binSS op bl m _ _ hop ihx ihy
+  | stepInv b a hn ha _ =>
+    cases a with
+    | vsel s =>
+      rw [mapSelectors]
+      cases ha
+      exact .stepInv false _ (fun v hh => by cases hh) (.vsel _)
+    | _ =>
+      rw [mapSelectors] <;> first | exact .stepInv b _ hn ha | (intro s hh; cases hh)
+
+/-- **C01 on the fragment with the selector optimizers on**: the engine's operator tree built
+from the *optimized* plan (matchers sorted, selects merged into broader selects with in-engine
+filters) emits, at every step, exactly the reference value of the *original* expression -/
+theorem engine_equals_reference_with_optimizers (c : Ctx V) (hq : c.q.noDupCheck = true) (e : Expr V)
+    (h : Frag false e) (t : Int) :
+    ∃ o xs, engOp c (optMergeSelects (optSortMatchers e)) = .ok o ∧ o.step t = .ok xs ∧
+      (∀ x ∈ xs, x.1 < o.series.length) ∧ eval c t e = .ok (.vec (denote o.series xs)) := by
+  have hfrag : Frag false (optMergeSelects (optSortMatchers e)) :=
+    frag_mapSelectors _ false _ (frag_mapSelectors _ false e h)
+  obtain ⟨o, xs, ho, hs, hids, hev⟩ := vector_fragment c hq _ hfrag t
+  refine ⟨o, xs, ho, hs, hids, ?_⟩
+  rw [← hev, C09.sort_then_merge_plan_sound]
 
 /-- a creation error is always "unsupported": exactly the queries that fall back -/
 theorem creation_error_class (c : Ctx V) (e : Expr V) (er : Err) (h : engOp c e = .error er) : er = .unsupported :=
